@@ -373,6 +373,34 @@ impl<'de> Deserialize<'de> for SpKey {
     }
 }
 
+/// a (non-transparent) newtype struct around a spanned key, as a user type for map keys would be
+#[derive(Debug, serde::Deserialize)]
+struct NtKey(Spanned<String>);
+
+/// the keys of a table, each taken as `NtKey`; the values are skipped
+struct RootKeys(Vec<NtKey>);
+
+impl<'de> Deserialize<'de> for RootKeys {
+    fn deserialize<D: Deserializer<'de>>(d: D) -> Result<Self, D::Error> {
+        struct V;
+        impl<'de> Visitor<'de> for V {
+            type Value = RootKeys;
+            fn expecting(&self, f: &mut std::fmt::Formatter<'_>) -> std::fmt::Result {
+                f.write_str("a table")
+            }
+            fn visit_map<A: MapAccess<'de>>(self, mut map: A) -> Result<RootKeys, A::Error> {
+                let mut v = Vec::new();
+                while let Some(k) = map.next_key::<NtKey>()? {
+                    map.next_value::<de::IgnoredAny>()?;
+                    v.push(k);
+                }
+                Ok(RootKeys(v))
+            }
+        }
+        d.deserialize_map(V)
+    }
+}
+
 /// Strict tree: every value is wrapped in `Spanned<_>` (used only to see whether wrapping changes
 /// success or the decoded value).
 #[derive(Debug)]
@@ -754,6 +782,24 @@ impl C14 {
                 }
                 (Ok(_), Err(e)) => w.bad("spanned-changes-success", format!("with Spanned<_> decoding succeeds, without it fails: {e}")),
                 (Err(_), Err(_)) => {}
+            }
+            // keys taken through a newtype struct around Spanned<String>
+            for (route, res) in [("toml::from_str", toml::from_str::<RootKeys>(text).map_err(|e| e.to_string())), ("toml_edit::de::from_str", toml_edit::de::from_str::<RootKeys>(text).map_err(|e| e.to_string()))] {
+                match (res, &plain) {
+                    (Ok(keys), _) => {
+                        for k in keys.0 {
+                            let sp = k.0.span();
+                            let ok = text.get(sp.clone()).and_then(|raw| refmodel::decode::decode_key(raw).ok()).map_or(false, |segs| segs.len() == 1 && &segs[0] == k.0.get_ref());
+                            if ok {
+                                w.bump("serde-key-span-through-newtype");
+                            } else {
+                                w.bad("serde-key-span-differs:newtype", format!("{route}: key {:?} taken as a newtype around Spanned<String> has span {sp:?}, which does not hold that key", k.0.get_ref()));
+                            }
+                        }
+                    }
+                    (Err(e), Ok(_)) => w.bad("spanned-changes-success:newtype-key", format!("{route}: map keys taken as a newtype around Spanned<String> make decoding fail: {e}")),
+                    (Err(_), Err(_)) => {}
+                }
             }
             let m = doc.into_mut();
             let left = any_span_left(m.as_item());
